@@ -25,6 +25,9 @@ pub struct C16Case
     pub variety: u16,
 }
 
+/// value of the lock file lying in the directory ABOVE the project (it belongs to something else)
+const FOREIGN_LOCK: u32 = 500_000;
+
 fn yaml(c: &C16Case) -> String
 {
     let mut y = String::from("---\n");
@@ -145,6 +148,10 @@ fn run_case(tree: &Tree, check: bool) -> (RunResult, Snapshot, Snapshot, Sandbox
 {
     let sb = Sandbox::new();
     materialise(&sb.proj(), tree);
+    // the project is nested in a bigger working tree that has a lock file of its own
+    let _ = std::fs::create_dir_all(sb.root.join(".git"));
+    let _ = std::fs::write(sb.root.join(".git/HEAD"), b"ref: refs/heads/main\n");
+    let _ = std::fs::write(sb.root.join("Breadlog.lock"), format!("{}next_reference_id: {}\n", LOCK_HEADER, FOREIGN_LOCK));
     let before = snapshot(&sb.root);
     let r = simple_run(&sb, check);
     let after = snapshot(&sb.root);
@@ -171,6 +178,11 @@ fn inserted(tree: &Tree, after: &Snapshot) -> Result<Vec<(String, u128, TokKind)
         }
     }
     Ok(out)
+}
+
+fn ids_from_foreign_lock(ins: &[(String, u128, TokKind)]) -> bool
+{
+    ins.iter().any(|x| x.1 >= FOREIGN_LOCK as u128 && x.1 < FOREIGN_LOCK as u128 + 100_000)
 }
 
 pub fn check(c: &C16Case) -> CaseOutcome
@@ -253,6 +265,10 @@ pub fn check(c: &C16Case) -> CaseOutcome
             {
                 o.fail("extensions-default", format!("{}: {} was edited", what, rel));
             }
+        }
+        if ids_from_foreign_lock(&ins)
+        {
+            o.fail("ids-taken-from-a-foreign-lock", format!("{}: inserted IDs {:?} come from the lock file in the directory above the project ({})", what, ins.iter().map(|x| x.1).collect::<Vec<_>>(), FOREIGN_LOCK));
         }
         if c.has_missing && ins.is_empty()
         {
@@ -480,7 +496,7 @@ pub fn run(env: &Env, rec: &Recorder) -> (String, Vec<&'static str>)
     enumerate(env, rec, "matrix", m, &check);
     rec.set_exhaustive(true);
     (
-        "the complete matrix use_cache {omitted,true,false} x structured {omitted,true,false} x extensions {omitted,[rs],[rsx],[rs, empty string]} x lock {absent, valid ahead of the tree, corrupt text, empty, wrong type, negative, > u32} x mode {edit,check} x tree {references missing, none missing}, plus 10 error points (source_dir naming a regular .rs file that lacks references, or a symbolic link to it; config missing, invalid YAML, wrong shape, source_dir key absent, source dir missing, source dir a file, nothing in scope, extension list holding only the empty string over a tree of extension-less, hidden and .rs files); every tree holds an extension-less file and a dot file with statements lacking references, which never are in scope x mode x lock x use_cache; small trees vary with the point (thorough: 20 variants per point). Oracle (reference model of the guide): disabled cache => lock untouched and IDs equal to the lock-absent baseline; omitted == true: inserting edit writes a parsable lock ahead of its IDs and a later run (after deleting the highest statement and adding one; for half of the points also after the configuration file got a newer timestamp than the lock) starts from the lock; unparsable lock => IDs equal to the lock-absent baseline and lock rewritten; structured/extension defaults; every error point => exit != 0 and strict snapshot equality. Non-trivial = any point other than all-explicit defaults with the lock absent".to_string(),
+        "the complete matrix use_cache {omitted,true,false} x structured {omitted,true,false} x extensions {omitted,[rs],[rsx],[rs, empty string]} x lock {absent, valid ahead of the tree, corrupt text, empty, wrong type, negative, > u32} x mode {edit,check} x tree {references missing, none missing}, plus 10 error points (source_dir naming a regular .rs file that lacks references, or a symbolic link to it; config missing, invalid YAML, wrong shape, source_dir key absent, source dir missing, source dir a file, nothing in scope, extension list holding only the empty string over a tree of extension-less, hidden and .rs files); the project always lies inside a bigger working tree (a `.git` directory and a foreign Breadlog.lock saying 500000 in the directory above it; no inserted ID may come from there); every tree holds an extension-less file and a dot file with statements lacking references, which never are in scope x mode x lock x use_cache; small trees vary with the point (thorough: 20 variants per point). Oracle (reference model of the guide): disabled cache => lock untouched and IDs equal to the lock-absent baseline; omitted == true: inserting edit writes a parsable lock ahead of its IDs and a later run (after deleting the highest statement and adding one; for half of the points also after the configuration file got a newer timestamp than the lock) starts from the lock; unparsable lock => IDs equal to the lock-absent baseline and lock rewritten; structured/extension defaults; every error point => exit != 0 and strict snapshot equality. Non-trivial = any point other than all-explicit defaults with the lock absent".to_string(),
         vec!["only unambiguous invalid configurations are asserted; unknown extra keys and an omitted rust stanza are not asserted either way", "exhaustive=true: every point of the stated matrix was visited"],
     )
 }
